@@ -259,7 +259,7 @@ func c11World(t *testing.T, p c11Params) rt.Result {
 
 // c11InboundEnd: after an inbound Established session of an active peer ends,
 // dialling resumes at once and a new inbound connection is accepted.
-func c11InboundEnd(t *testing.T, how string, seed uint64, hook int) rt.Result {
+func c11InboundEnd(t *testing.T, how, next string, seed uint64, hook int) rt.Result {
 	out := hz.Run(t, hz.Opts{Seed: seed, HookMode: hook}, func(w *hz.World) {
 		ps := hz.StdPeer("10.0.1.1")
 		ps.IdleHold, ps.ConnectRetry = 5*time.Second, 5*time.Second
@@ -267,11 +267,19 @@ func c11InboundEnd(t *testing.T, how string, seed uint64, hook int) rt.Result {
 		if s == nil {
 			return
 		}
+		acceptOut := false
+		w.DialPolicy = func(hz.DialReq) (hz.DialAction, time.Duration) {
+			if acceptOut {
+				return hz.DialAccept, 0
+			}
+			return hz.DialRefuse, 0
+		}
 		time.Sleep(12 * time.Second) // remote keeps it alive below the 90 s hold time
 		n0 := len(w.Dials())
 		if n0 != 1 {
 			w.Violate("expected exactly the initial refused attempt before the inbound session established, saw %d attempts (outbound FSM must be off while inbound is Established)", n0)
 		}
+		acceptOut = next == "outbound"
 		switch how {
 		case "close":
 			s.rc.Close()
@@ -290,6 +298,23 @@ func c11InboundEnd(t *testing.T, how string, seed uint64, hook int) rt.Result {
 		if at := ds[n0].At; at-T > c11Tol {
 			w.Violate("inbound session ended at +%v, next outbound attempt only at +%v", T, at)
 		}
+		if next == "outbound" {
+			// the remote now accepts corebgp's own connection and behaves well: the session must establish
+			oc := w.WaitOut(1, time.Second)
+			if oc == nil {
+				w.Violate("no outbound connection after the inbound session ended")
+				return
+			}
+			if !oc.Handshake(ps.RemoteAS, 90, remoteIDu) {
+				w.Violate("outbound handshake after an inbound session ended (%s) failed: %s", how, typesOf(oc.Msgs()))
+				return
+			}
+			w.Settle()
+			if eof, _ := oc.EOF(); eof || !s.mon.Up() {
+				w.Violate("after an inbound session ended (%s) the next outbound session did not establish with a well-behaved remote: %s", how, typesOf(oc.Msgs()))
+			}
+			return
+		}
 		rc := w.Connect(ps.Addr)
 		if !rc.Handshake(ps.RemoteAS, 90, remoteIDu) {
 			w.Violate("a new inbound connection after the session ended was not served: %s", typesOf(rc.Msgs()))
@@ -300,7 +325,7 @@ func c11InboundEnd(t *testing.T, how string, seed uint64, hook int) rt.Result {
 			w.Violate("new inbound session did not establish")
 		}
 	})
-	return worldResult(out, true, "|"+how, map[string]int{"inbound_end": 1})
+	return worldResult(out, true, "|"+how+next, map[string]int{"inbound_end": 1})
 }
 
 func TestC11(t *testing.T) {
@@ -354,8 +379,9 @@ func TestC11(t *testing.T) {
 	}
 	for i := 0; i < c.N(60, 1500); i++ {
 		how := []string{"close", "reset", "cease"}[i%3]
+		next := []string{"inbound", "outbound"}[(i/3)%2]
 		seed := uint64(i)*31 + c.Seed
-		runCase(t, "inbound-end", i, map[string]any{"how": how}, func(t *testing.T) rt.Result { return c11InboundEnd(t, how, seed, hz.HookVSleep) })
+		runCase(t, "inbound-end", i, map[string]any{"how": how, "next_session": next}, func(t *testing.T) rt.Result { return c11InboundEnd(t, how, next, seed, hz.HookVSleep) })
 	}
 	// real refused loopback dials inside the bubble: the real net.Dialer and the
 	// WithDialerControl callback (one per attempt) are observed
